@@ -61,6 +61,8 @@ GP.build("C01", "Every agent message is answered exactly once",
           ("C01_queue_bound", "queue_bound_reachable", "the bounded response queue (maxsize 2) can never block a handler: it holds at most one item"),
           ("C01_quiescent", "quiescent_reachable",
            "when no task can run, every connection that awaits an answer has exactly one handler, and it is parked at one of the three barriers with its wait not released"),
+          ("C01_idle_unmet", "idle_barriers_unmet",
+           "and that barrier is genuinely unmet (no lost wake-up): in every reachable idle state a handler held at the end barrier coexists with an agent that has not finished, one held at the reset barrier with an agent that has not asked, one held at the start barrier with a clear start event - what is unanswered waits for other players, never for the server"),
           ("C01_parked_have_agents", "parked_have_agents_reachable", "a handler parked at a barrier always belongs to a registered agent (its continuation cannot fail)"),
           ("C01_garbage_answered", "reject_garbage", "an unparsable message is answered with BAD_REQUEST by the dispatcher"),
           ("C01_dispatcher_alive", "dispatcher_alive", "the dispatcher can always take the next message")],
@@ -126,6 +128,9 @@ GP.build("C06", "Start and end-of-episode barriers hold for all agents",
           ("C06_end_all", "rewards_effect", "when it acts, it releases ALL of them in the same step (no lost wake-up)"),
           ("C06_quiescent", "quiescent_reachable", "when the coordinator is idle, an unanswered request is parked at a barrier whose wait was not released"),
           ("C06_nonfinal", "game_step_eq", "a non-final observation is never held back: it is answered in the segment that executed the action"),
+          ("C06_unmet", "idle_barriers_unmet", "no lost wake-up, for all three barriers: in every reachable idle state an unreleased wait is held by a barrier that is genuinely unmet (somebody has not finished / has not asked / the start event is clear)"),
+          ("C06_invariant", "K_reachable", "the invariant behind it, for every reachable state, idle or not: an unreleased end wait => somebody has not finished or the reward task is pending; an unreleased reset wait => somebody has not asked or the reset task is pending; an unreleased start wait => start event clear; start event set => at least the required number of players in the game"),
+          ("C06_start", "started_enough_players", "the start event is set only while at least the required number of players is in the game"),
           ("C06_parked_final", "parked_view_reachable", "in every reachable state a handler held at the end-of-episode barrier belongs to an agent whose episode has ended, and the view it will report is exactly the stored one (final observations only are held back)")],
          example=EX % "C06")
 
@@ -137,6 +142,7 @@ GP.build("C07", "Reset is collective, voluntary and gives every agent a fresh ep
           ("C07_done", "reset_done_content", "RESET_DONE carries that observation, the finished trajectory iff requested, and restarts the trajectory"),
           ("C07_request_stays", "request_stays_reachable", "ACROSS LABELS: a registered reset request stays registered along every continuation until the reset task runs (or the agent leaves)"),
           ("C07_request_handler", "request_has_handler_reachable", "in every reachable state a registered request has its handler waiting for the reset: no request is ever left without somebody to answer RESET_DONE"),
+          ("C07_unmet", "idle_barriers_unmet", "in every reachable idle state an agent waiting for RESET_DONE coexists with an agent that has not asked (the reset barrier is never stuck on the server side)"),
           ("C07_cleared_by_reset", "achange_req_cleared", "only the reset task clears a request")],
          example=EX % "C07")
 
